@@ -35,6 +35,18 @@
 (* and exports the instance; on unscaled instances the symbolic analysis    *)
 (* must coincide with MinNorm's integer one (BSRefinesMinNorm).             *)
 (*                                                                         *)
+(* ROW-SCALED family (C03, section of that name): J = 2^e D_r J0 with the    *)
+(* rows scaled by powers of eps = 2^-P (row norms up to 12 orders of         *)
+(* magnitude apart), preference vectors with entries in {0, tiny, 1} (one-   *)
+(* hot, sparse, tiny entries) and the regularisation tied to the TRACE:      *)
+(* reg_eps s^2 = (p/q) tr G, so that the exact minimiser is a rational       *)
+(* function of eps for EVERY matrix (no integer lambda_max needed); the KKT  *)
+(* system is solved over Z[eps] with the sign rule of EpsScale.tla.          *)
+(*                                                                         *)
+(* MGDA CONFIGURATIONS (C04, section of that name): the ladder of iteration  *)
+(* budgets (up to 60000) and the presentations of epsilon = 0 (int / float)  *)
+(* with the bound 8 s^2 / (K + 2) of every budget.                           *)
+(*                                                                         *)
 (* PRESENTATIONS AND HISTORIES (C03, section of that name): the expected     *)
 (* values belong to the VALUES (J, u); every scenario also exports the      *)
 (* dtypes in which each preference vector can be given exactly (pres) and   *)
@@ -209,6 +221,10 @@ Compute(f, es) ==
          mnOK |-> MinNormWellDefined(G), mn2 |-> MinNormSq(G),
          fw |-> [K \in 1..FWK |-> FWReach(G, K)]]
 
+\* Frank-Wolfe has not reached the min-norm point after the FWK modelled steps (for some tie-break): the instances on
+\* which the large budgets of the ladder say something the small ones do not
+FWOpen(r) == FWK > 0 /\ \E st \in r.fw[FWK] : GapNum(r.G, st, r.mn2) > 0
+
 \* ---- badly scaled family: which shapes are enumerated (overridden in MC_DualCone_bs_*.cfg); a matrix J0 of
 \* shape f is kept iff (Hash(entries) + SamplePick) % f.mod = 0, and then analysed with EVERY admissible scaling
 BSFam         == {}
@@ -223,6 +239,135 @@ BSFile        == FALSE
 BSFileOn      == TRUE
 BSFileInsts   == IF BSFile THEN LET s == JsonDeserialize(IOEnv.BS_FILE) IN {s[x] : x \in DOMAIN s} ELSE {}
 
+-----------------------------------------------------------------------------
+(* MGDA configurations (C04)                                                *)
+(*                                                                         *)
+(* C04 states the rate |A(J)|^2 - minnorm^2 <= 8 s^2 / (max_iters + 2) of   *)
+(* MGDA(epsilon = 0) for EVERY iteration budget.  The model checks it       *)
+(* exactly for the budgets up to FWK (FWRate); the replay runs the ladder   *)
+(* below - which continues to budgets large enough for the bound to fall    *)
+(* below the sub-optimality a slowly (sub-linearly) converging instance     *)
+(* still has after some hundred iterations - against the bound exported     *)
+(* here (upper end of the exact bracket of s^2).  epsilon = 0 ("never stop  *)
+(* early") is one configuration value with two presentations: the float 0.0 *)
+(* and the integer 0; which one a scenario is replayed with is a function   *)
+(* of its entries and of a salt (the harness passes its seed).              *)
+
+MGDABudgets  == <<1, 2, 3, 10, 100, 1000, 5000, 20000, 60000>>
+EpsZeroPres  == <<"float", "int">>
+EpsZero(h, salt) == EpsZeroPres[((h + salt) % 2) + 1]
+S2Hi(L, isI)     == IF isI THEN L ELSE L + 1                     \* s^2 <= S2Hi (exact bracket)
+MGDARateBound(L, isI, K) == Frac(8 * S2Hi(L, isI), K + 2)
+
+-----------------------------------------------------------------------------
+(* ROW-SCALED family (C03)                                                  *)
+(*                                                                         *)
+(* C03 quantifies over every matrix with s >= norm_eps (row norms over 12   *)
+(* orders of magnitude), every non-negative preference vector and every     *)
+(* reg_eps > 0.  An instance is J = D_r J0: J0 a small integer matrix, row  *)
+(* i scaled by eps^rho_i, eps = 2^-P carried symbolically (EpsScale.tla).   *)
+(* The code minimises v^T (G / s^2 + reg_eps I) v over v >= u; the          *)
+(* minimiser depends on reg_eps and s^2 only through delta = reg_eps s^2.   *)
+(* s^2 is irrational in general, but reg_eps is a free configuration: the   *)
+(* family ties it to the TRACE, delta = (p/q) tr G (i.e. reg_eps = (p/q)    *)
+(* tr G / s^2, a number between p/q and m p/q), so that for EVERY matrix    *)
+(* the minimiser is that of the polynomial matrix                           *)
+(*        A = q G + p T I          (T = tr G; entries in Z[eps]).           *)
+(* The active sets are enumerated as in Active above, with Cramer's rule    *)
+(* over Z[eps]; every sign is decided by the sign rule, hence for all       *)
+(* P >= needP at once.  The preference vectors have entries in {0, tiny, 1} *)
+(* (tiny = eps or eps^2, see RSPrefs) with at least one 1 - one-hot,        *)
+(* sparse, tiny entries on any subset of the rows, all ones - plus the      *)
+(* default (uniform) one.  UPGrad: the                                      *)
+(* projections of the unit vectors are exported; UPGradW(u) =               *)
+(* SUM_i u_i Proj(e_i) by positive homogeneity (RSHomogeneous).             *)
+(* On unscaled instances the polynomial solution must be the integer one of *)
+(* Proj above (RSRefinesInteger).                                           *)
+
+RSFam         == {}
+RSFamNone     == {}
+RSFamQuick    == {[m |-> 2, n |-> 2, e |-> 2, mod |-> 4], [m |-> 2, n |-> 3, e |-> 1, mod |-> 16],
+                  [m |-> 3, n |-> 2, e |-> 1, mod |-> 16], [m |-> 3, n |-> 3, e |-> 1, mod |-> 512]}
+RSFamThorough == {[m |-> 2, n |-> 2, e |-> 2, mod |-> 1], [m |-> 2, n |-> 3, e |-> 1, mod |-> 2],
+                  [m |-> 3, n |-> 2, e |-> 1, mod |-> 2], [m |-> 3, n |-> 3, e |-> 1, mod |-> 64]}
+RSFile        == FALSE
+RSFileOn      == TRUE
+RSFileInsts   == IF RSFile THEN LET s == JsonDeserialize(IOEnv.RS_FILE) IN {s[x] : x \in DOMAIN s} ELSE {}
+
+\* preference vectors: entry codes 0 -> 0, 1 -> a TINY entry, 2 -> 1; all code vectors with at least one 1-entry, in
+\* the order of their base-3 value; the first preference is the default one (all ones over the denominator m).
+\* The tiny entry is eps^te with te in {1, 2} a function of the entries of J0 (half of the instances each): eps is
+\* of the order of the slack the projection puts on a large row that conflicts with a small one, eps^2 far below it.
+RECURSIVE RSPow3(_)
+RSPow3(k)      == IF k = 0 THEN 1 ELSE 3 * RSPow3(k - 1)
+RSEntry(c, te) == IF c = 0 THEN <<>> ELSE IF c = 1 THEN PMono(1, te) ELSE <<1>>
+RSDigits(x, m) == [i \in 1..m |-> (x \div RSPow3(i - 1)) % 3]
+RSCodes(m)     == SelectSeq([k \in 1..RSPow3(m) |-> RSDigits(k - 1, m)], LAMBDA c : \E i \in 1..m : c[i] = 2)
+\* the dtypes a preference vector can be given in exactly: its entries are 0, 1 or a power of two >= 2^-80
+RSPres(c)      == <<"f64", "f32">> \o (IF \E i \in DOMAIN c : c[i] = 1 THEN <<>> ELSE <<"i64">>)
+RSPrefs(m, te) == <<[code |-> [i \in 1..m |-> 2], U |-> [i \in 1..m |-> <<1>>], ud |-> m, default |-> TRUE,
+                     pres |-> <<"none">>]>> \o
+                  [k \in 1..Len(RSCodes(m)) |-> [code |-> RSCodes(m)[k], U |-> [i \in 1..m |-> RSEntry(RSCodes(m)[k][i], te)],
+                                                  ud |-> 1, default |-> FALSE, pres |-> RSPres(RSCodes(m)[k])]]
+RSUnit(m, i)   == [j \in 1..m |-> IF j = i THEN <<1>> ELSE <<>>]
+\* delta = (p/q) tr G   (m = 3 stops at 1/4: 32-bit coefficients)
+RSRegSeq(m)    == IF m <= 2 THEN << <<1, 2>>, <<1, 16>> >> ELSE << <<1, 2>>, <<1, 4>> >>
+
+\* KKT candidate of  min v^T A v, v >= U  for the active set S over Z[eps]:  v = V / D  (D > 0 by the sign rule)
+RSActive(A, U, S) ==
+    LET m   == Len(A)
+        F   == (1..m) \ S
+        f   == EsSorted(F)
+        k   == Len(f)
+        AFF == TLCEval([a \in 1..k |-> [b \in 1..k |-> A[f[a]][f[b]]]])
+        rhs == TLCEval([a \in 1..k |-> PNeg(PSumSeq([j \in 1..m |-> IF j \in S THEN PMul(A[f[a]][j], U[j]) ELSE <<>>]))])
+        dt  == TLCEval(PDet(AFF))                               \* <<1>> when F is empty
+        V   == TLCEval([i \in 1..m |-> IF i \in S THEN PMul(U[i], dt) ELSE PDet(PReplaceCol(AFF, EsPos(F, i), rhs))])
+        slF == TLCEval([i \in 1..m |-> PSub(V[i], PMul(U[i], dt))])                         \* D (v - u)_i
+        slS == TLCEval([i \in 1..m |-> PSumSeq([j \in 1..m |-> PMul(A[i][j], V[j])])])      \* D (A v)_i
+    IN  IF PSign(dt) <= 0 THEN [ok |-> FALSE, V |-> <<>>, D |-> <<>>, gd |-> 0]
+        ELSE [ok |-> (\A i \in F : PSign(slF[i]) >= 0) /\ (\A i \in S : PSign(slS[i]) >= 0),
+              V  |-> V, D |-> dt,
+              gd |-> EpMax(PGuard(dt), EpMax(EpMaxSeq([i \in 1..m |-> IF i \in F THEN PGuard(slF[i]) ELSE 0]),
+                                             EpMaxSeq([i \in 1..m |-> IF i \in S THEN PGuard(slS[i]) ELSE 0])))]
+
+\* all KKT points over the active sets: how many certificates, whether they are the same rational functions, and the
+\* certificate with the weakest requirement on P
+RSSolve1(A, U) ==
+    LET C == {c \in {RSActive(A, U, S) : S \in SUBSET (1..Len(A))} : c.ok}
+    IN  [n    |-> Cardinality(C),
+         same |-> \A x, y \in C : \A i \in 1..Len(A) : PMul(x.V[i], y.D) = PMul(y.V[i], x.D),
+         sol  |-> IF C = {} THEN [V |-> <<>>, D |-> <<>>, gd |-> 0]
+                  ELSE LET c == CHOOSE c \in C : \A x \in C : c.gd <= x.gd IN [V |-> c.V, D |-> c.D, gd |-> c.gd]]
+
+RSMat(G, T, reg) == TLCEval([i \in 1..Len(G) |-> [j \in 1..Len(G) |->
+                        PAdd(PScale(reg[2], G[i][j]), IF i = j THEN PScale(reg[1], T) ELSE <<>>)]])
+
+RSAnalyse(inst) ==
+    LET m     == Len(inst.J0)
+        n     == Len(inst.J0[1])
+        G     == TLCEval(EsGram([J0 |-> inst.J0, rho |-> inst.rho, gam |-> [j \in 1..n |-> 0]]))
+        T     == EsTrace(G)
+        k     == IF T = <<>> THEN 0 ELSE EsLamK(G)
+        gl    == IF T = <<>> THEN 0 ELSE EsLamGuard(G, k)
+        regs  == RSRegSeq(m)
+        te    == 1 + (Hash([x \in 1..(m * n) |-> inst.J0[((x - 1) \div n) + 1][((x - 1) % n) + 1]]) % 2)
+        prefs == RSPrefs(m, te)
+        sol   == IF T = <<>> THEN <<>>
+                 ELSE TLCEval([ri \in 1..Len(regs) |->
+                        LET A == RSMat(G, T, regs[ri]) IN
+                        [pe  |-> [i \in 1..m |-> RSSolve1(A, RSUnit(m, i))],
+                         wd  |-> [pi \in 1..Len(prefs) |-> RSSolve1(A, prefs[pi].U)],
+                         \* positive homogeneity, on the tiny multiple eps e_i of every unit vector
+                         hom |-> [i \in 1..m |-> RSSolve1(A, [j \in 1..m |-> IF j = i THEN <<0, 1>> ELSE <<>>])]]])
+        gsol  == IF sol = <<>> THEN 0
+                 ELSE EpMaxSeq([ri \in 1..Len(regs) |->
+                        EpMax(EpMaxSeq([i \in 1..m |-> sol[ri].pe[i].sol.gd]),
+                              EpMaxSeq([pi \in 1..Len(prefs) |-> sol[ri].wd[pi].sol.gd]))])
+    IN  [J0 |-> inst.J0, rho |-> inst.rho, m |-> m, n |-> n, G |-> G, tr |-> T, lamK |-> k, te |-> te,
+         conflict |-> EsConflict(G), prefs |-> prefs, regs |-> regs, sol |-> sol,
+         needP |-> NeedP(EpMax(gsol, EpMax(gl, PGuard(T))))]
+
 Init == \/ fam \in Family /\ ents = <<>> /\ phase = "build" /\ res = <<>>
         \/ fam \in BSFam /\ ents = <<>> /\ phase = "bsbuild" /\ res = <<>>
         \/ \E x \in BSFileInsts :
@@ -230,6 +375,12 @@ Init == \/ fam \in Family /\ ents = <<>> /\ phase = "build" /\ res = <<>>
               /\ ents = [k \in 1..(Len(x.J0) * Len(x.J0[1])) |->
                            x.J0[((k - 1) \div Len(x.J0[1])) + 1][((k - 1) % Len(x.J0[1])) + 1]]
               /\ phase = "bsfile" /\ res = [rho |-> x.rho, gam |-> x.gam]
+        \/ fam \in RSFam /\ ents = <<>> /\ phase = "rsbuild" /\ res = <<>>
+        \/ \E x \in RSFileInsts :
+              /\ fam = [m |-> Len(x.J0), n |-> Len(x.J0[1]), e |-> 0, mod |-> 1]
+              /\ ents = [k \in 1..(Len(x.J0) * Len(x.J0[1])) |->
+                           x.J0[((k - 1) \div Len(x.J0[1])) + 1][((k - 1) % Len(x.J0[1])) + 1]]
+              /\ phase = "rsfile" /\ res = [rho |-> x.rho]
 
 Extend == /\ phase = "build" /\ Len(ents) < fam.m * fam.n
           /\ \E x \in (0 - fam.e)..fam.e : ents' = Append(ents, x)
@@ -256,7 +407,22 @@ BSSolveFile == /\ phase = "bsfile"
                /\ res' = EsAnalyse([J0 |-> MatOf(fam, ents), rho |-> res.rho, gam |-> res.gam])
                /\ phase' = "bsdone" /\ UNCHANGED <<fam, ents>>
 
-Next == Extend \/ Solve \/ BSExtend \/ BSSolve \/ BSSolveFile
+RSExtend == /\ phase = "rsbuild" /\ Len(ents) < fam.m * fam.n
+            /\ \E x \in (0 - fam.e)..fam.e : ents' = Append(ents, x)
+            /\ UNCHANGED <<fam, phase, res>>
+
+\* every row scaling of a kept matrix (scaled rows last, at least one row unscaled); the unscaled instance is
+\* analysed too (refinement check against the integer projection, not exported)
+RSSolve == /\ phase = "rsbuild" /\ Len(ents) = fam.m * fam.n
+           /\ (Hash(ents) + SamplePick) % fam.mod = 0
+           /\ \E r \in EsStep(fam.m) : res' = RSAnalyse([J0 |-> MatOf(fam, ents), rho |-> r])
+           /\ phase' = "rsdone" /\ UNCHANGED <<fam, ents>>
+
+RSSolveFile == /\ phase = "rsfile"
+               /\ res' = RSAnalyse([J0 |-> MatOf(fam, ents), rho |-> res.rho])
+               /\ phase' = "rsdone" /\ UNCHANGED <<fam, ents>>
+
+Next == Extend \/ Solve \/ BSExtend \/ BSSolve \/ BSSolveFile \/ RSExtend \/ RSSolve \/ RSSolveFile
 Spec == Init /\ [][Next]_vars
 
 Done  == phase = "done"
@@ -340,6 +506,17 @@ FWRate      == Done => \A K \in DOMAIN res.fw : \A st \in res.fw[K] : MGDARateOK
 FWTwoRowsExact == (Done /\ M = 2 /\ 1 \in DOMAIN res.fw) =>
                      \A st \in res.fw[1] : GapNum(res.G, st, res.mn2) = 0
 
+\* the ladder of budgets is increasing, contains every depth the model checks exactly, the exported bounds decrease
+\* and dominate the sub-optimality of every modelled iterate; both presentations of epsilon = 0 occur
+MGDAConfigSound ==
+    Done => /\ \A k \in 1..(Len(MGDABudgets) - 1) : MGDABudgets[k] < MGDABudgets[k + 1]
+            /\ \A K \in 1..FWK : \E k \in DOMAIN MGDABudgets : MGDABudgets[k] = K
+            /\ \A k \in 1..(Len(MGDABudgets) - 1) :
+                  RLe(MGDARateBound(res.lamLo, res.lamInt, MGDABudgets[k + 1]), MGDARateBound(res.lamLo, res.lamInt, MGDABudgets[k]))
+            /\ \A K \in DOMAIN res.fw : \A st \in res.fw[K] :
+                  RLe(Frac(GapNum(res.G, st, res.mn2), st.d * st.d * res.mn2[2]), MGDARateBound(res.lamLo, res.lamInt, K))
+            /\ {EpsZero(Hash(ents), salt) : salt \in 1..2} = {EpsZeroPres[k] : k \in 1..2}
+
 -----------------------------------------------------------------------------
 (* Scenario export                                                          *)
 
@@ -347,7 +524,11 @@ Scenario == [m |-> fam.m, n |-> fam.n, J |-> res.J, tr |-> res.tr, lamLo |-> res
              conflict |-> res.conflict, prefs |-> Prefs, regeps |-> RegEpsSeq(fam.m),
              cmp |-> ScaleCmp(res.lamLo), f2 |-> res.f2, f1 |-> res.f1, mn2 |-> res.mn2,
              pres |-> [pi \in PIdx |-> PrefPres(Prefs[pi])],
-             buf |-> [salt \in 1..4 |-> BufMode(Hash(ents), salt)]]
+             buf |-> [salt \in 1..4 |-> BufMode(Hash(ents), salt)],
+             mgda |-> [budgets |-> MGDABudgets,
+                       rate    |-> [k \in DOMAIN MGDABudgets |-> MGDARateBound(res.lamLo, res.lamInt, MGDABudgets[k])],
+                       epsz    |-> [salt \in 1..2 |-> EpsZero(Hash(ents), salt)],
+                       open    |-> FWOpen(res)]]
 
 Export == (Done /\ Hash(ents) % SampleMod = SamplePick) => PrintT(<<"SCN", ToJson(Scenario)>>)
 
@@ -390,4 +571,55 @@ BSRefinesMinNorm ==
             /\ res.conflict = Conflict(G)
 
 BSExport == (BSDone /\ ~BSUnscaled) => PrintT(<<"BSCN", ToJson(res)>>)
+
+-----------------------------------------------------------------------------
+(* Row-scaled family (C03): what TLC checks about the symbolic KKT solution  *)
+
+RSDone     == phase = "rsdone"
+RSUnscaled == \A i \in 1..fam.m : res.rho[i] = 0
+RSAll(r)   == [i \in 1..Len(r.pe) |-> r.pe[i]] \o [pi \in 1..Len(r.wd) |-> r.wd[pi]]
+
+\* a KKT point exists and all certificates are the same rational functions (A is positive definite)
+RSKKTExistsUnique ==
+    (RSDone /\ res.tr # <<>>) => \A ri \in DOMAIN res.sol : \A x \in {RSAll(res.sol[ri])[k] : k \in DOMAIN RSAll(res.sol[ri])} :
+                                     x.n >= 1 /\ x.same
+\* v >= u, and without a negative Gramian entry (sign rule) the projection is the identity
+RSNoConflictIsIdentity ==
+    (RSDone /\ res.tr # <<>> /\ ~res.conflict) =>
+        \A ri \in DOMAIN res.sol : \A pi \in DOMAIN res.prefs :
+            \A i \in 1..fam.m : res.sol[ri].wd[pi].sol.V[i] = PMul(res.prefs[pi].U[i], res.sol[ri].wd[pi].sol.D)
+\* Proj(eps e_i) = eps Proj(e_i): what the replay uses to assemble UPGradW(u) = SUM_i u_i Proj(e_i)
+RSHomogeneous ==
+    (RSDone /\ res.tr # <<>>) =>
+        \A ri \in DOMAIN res.sol : \A i, j \in 1..fam.m :
+            LET a == res.sol[ri].hom[i].sol
+                b == res.sol[ri].pe[i].sol
+            IN  res.sol[ri].hom[i].n >= 1 /\ PMul(a.V[j], b.D) = PMul(PMul(<<0, 1>>, b.V[j]), a.D)
+\* REFINEMENT: without scaling, and for a preference vector without eps entries, every polynomial is a constant and
+\* the solution is the integer one of Proj (the operator the main family is checked and replayed with)
+RSRefinesInteger ==
+    (RSDone /\ RSUnscaled /\ res.tr # <<>>) =>
+        LET G == Gram(res.J0) IN
+        /\ res.tr = <<ITrace(G)>> /\ res.conflict = Conflict(G)
+        /\ \A ri \in DOMAIN res.sol : \A pi \in DOMAIN res.prefs :
+              (\A i \in 1..fam.m : res.prefs[pi].code[i] # 1) =>
+                 LET A == AReg(G, res.regs[ri][1], res.regs[ri][2], ITrace(G))
+                     u == [i \in 1..fam.m |-> R(PCoef(res.prefs[pi].U[i], 0))]
+                     s == res.sol[ri].wd[pi].sol
+                 IN  /\ Len(s.D) = 1 /\ \A i \in 1..fam.m : Len(s.V[i]) <= 1
+                     /\ Proj(A, u) = [i \in 1..fam.m |-> Frac(PCoef(s.V[i], 0), s.D[1])]
+\* (k-1) T/16 <= sigma_max^2 < k T/16 is consistent with max_i G_ii <= sigma_max^2 and T/m <= sigma_max^2
+RSBracketSound ==
+    (RSDone /\ res.tr # <<>>) =>
+        /\ res.lamK \in 2..17 /\ res.lamK * fam.m > 16
+        /\ \A i \in 1..fam.m : PSign(PSub(PScale(res.lamK, res.tr), PScale(16, res.G[i][i]))) > 0
+
+RSSlim(x)   == [V |-> x.sol.V, D |-> x.sol.D]
+RSScenario  == [J0 |-> res.J0, rho |-> res.rho, m |-> res.m, n |-> res.n, tr |-> res.tr, lamK |-> res.lamK, te |-> res.te,
+                conflict |-> res.conflict, needP |-> res.needP, regs |-> res.regs,
+                prefs |-> [pi \in DOMAIN res.prefs |-> [code |-> res.prefs[pi].code, ud |-> res.prefs[pi].ud,
+                                                         default |-> res.prefs[pi].default, pres |-> res.prefs[pi].pres]],
+                sol |-> [ri \in DOMAIN res.sol |-> [pe |-> [i \in 1..res.m |-> RSSlim(res.sol[ri].pe[i])],
+                                                     wd |-> [pi \in DOMAIN res.prefs |-> RSSlim(res.sol[ri].wd[pi])]]]]
+RSExport    == (RSDone /\ ~RSUnscaled /\ res.tr # <<>>) => PrintT(<<"RSCN", ToJson(RSScenario)>>)
 =============================================================================
